@@ -276,8 +276,15 @@ Note: An ecc structure repair does NOT allow to recover from more errors on your
                     if not marker_str or len(marker_str) != ecc_params_idx["message_size"]: continue # (an index block truncated inside the marker's infos cannot be used)
 
                     # Repair ecc file's marker using our correct (or repaired) marker's infos
-                    marker_type = int(chr(marker_str[0]) if isinstance(marker_str[0], int) else marker_str[0]) # marker's type is always stored on the first byte/character
-                    marker_pos = struct.unpack('>Q', marker_str[1:]) # marker's position is encoded as a big-endian unsigned long long, in a 8 bytes/chars string
+                    try:
+                        marker_type = int(chr(marker_str[0]) if isinstance(marker_str[0], int) else marker_str[0]) # marker's type is always stored on the first byte/character
+                        marker_pos = struct.unpack('>Q', marker_str[1:]) # marker's position is encoded as a big-endian unsigned long long, in a 8 bytes/chars string
+                    except (ValueError, struct.error):
+                        marker_type = None
+                    # Sanity check: an index block corrupted beyond the ecc capacity can be wrongly repaired into another valid block with meaningless infos: skip it (else we would crash or write a marker over real content or beyond the end of the ecc file)
+                    if marker_type not in (1, 2) or marker_pos[0] + len(markers[marker_type-1]) > ecc_size:
+                        ptee.write("\n- Index backup file: block starting at %i contains invalid marker infos. Skipping." % curpos)
+                        continue
                     db.seek(marker_pos[0]) # move the ecc reading cursor to the beginning of the marker
                     current_marker = db.read(len(markers[marker_type-1])) # read the current marker (potentially corrupted)
                     db.seek(marker_pos[0])
